@@ -2,7 +2,7 @@
 //! Everything here that computes is the crate's code: seeding, the dual arithmetic inside the closure (the
 //! polynomial is evaluated with `*` and `+` on the numbers the driver hands over), extraction, orientation.
 
-use crate::exact::{canon, eval_generic, Poly};
+use crate::exact::{canon, eval_generic, eval_inexact, Poly};
 use nalgebra::allocator::Allocator;
 use nalgebra::{Const, DefaultAllocator, Dim, Dyn, OMatrix, OVector};
 use num_dual::*;
@@ -56,6 +56,8 @@ pub struct Fx {
     pub scale: i32,
     /// which syntactic forms the closure uses to evaluate the polynomial (exact.rs)
     pub style: u64,
+    /// second polynomial per output: when present the closure evaluates the inexact family (exact.rs: eval_inexact)
+    pub inexact: Option<Vec<Poly>>,
 }
 
 /// x * 2^k, by the scalar multiplication of the number type
@@ -119,6 +121,15 @@ impl Subj<f64> for DualDVec64 {
         let e = self.eps.clone().unwrap_generic(Dyn(2), Const::<1>);
         (canon(self.re), Some(canon(e[0])), Some(canon(e[1])))
     }
+}
+
+/// what the closure computes for output `idx`
+fn evaluate<X: DualNum<F> + Clone, F: DualNumFloat>(fx: &Fx, idx: usize, vars: &[X]) -> X {
+    let v = match &fx.inexact {
+        Some(q) => eval_inexact(&fx.polys[idx], &q[idx], vars, fx.style),
+        None => eval_generic(&fx.polys[idx], vars, fx.style),
+    };
+    scaled(v, fx.scale)
 }
 
 fn behave<R>(ctx: &Ctx, eval: impl FnOnce() -> R, reenter: impl FnOnce()) -> Result<R, Token> {
@@ -192,26 +203,26 @@ macro_rules! reenter_with {
 
 pub fn first_derivative_case<T: Subj<F>, F: DualNumFloat>(fx: &Fx, inner: Option<&Fx>, fallible: bool, ctx: &Ctx) -> Result<Vec<Part>, Token> {
     let x = T::make(fx.a[0], fx.b[0]);
-    let body = |v: Dual<T, F>| behave(ctx, || scaled(eval_generic(&fx.polys[0], &[v.clone()], fx.style), fx.scale), reenter_with!(ctx, inner, |i, c| first_derivative_case::<T, F>(i, None, fallible, c)));
+    let body = |v: Dual<T, F>| behave(ctx, || evaluate(fx, 0, &[v.clone()]), reenter_with!(ctx, inner, |i, c| first_derivative_case::<T, F>(i, None, fallible, c)));
     let r = if fallible { try_first_derivative(body, x)? } else { first_derivative(|v| infallible(body(v)), x) };
     Ok(vec![r.0.part(), r.1.part()])
 }
 pub fn second_derivative_case<T: Subj<F>, F: DualNumFloat>(fx: &Fx, inner: Option<&Fx>, fallible: bool, ctx: &Ctx) -> Result<Vec<Part>, Token> {
     let x = T::make(fx.a[0], fx.b[0]);
-    let body = |v: Dual2<T, F>| behave(ctx, || scaled(eval_generic(&fx.polys[0], &[v.clone()], fx.style), fx.scale), reenter_with!(ctx, inner, |i, c| second_derivative_case::<T, F>(i, None, fallible, c)));
+    let body = |v: Dual2<T, F>| behave(ctx, || evaluate(fx, 0, &[v.clone()]), reenter_with!(ctx, inner, |i, c| second_derivative_case::<T, F>(i, None, fallible, c)));
     let r = if fallible { try_second_derivative(body, x)? } else { second_derivative(|v| infallible(body(v)), x) };
     Ok(vec![r.0.part(), r.1.part(), r.2.part()])
 }
 pub fn third_derivative_case<T: Subj<F>, F: DualNumFloat>(fx: &Fx, inner: Option<&Fx>, fallible: bool, ctx: &Ctx) -> Result<Vec<Part>, Token> {
     let x = T::make(fx.a[0], fx.b[0]);
-    let body = |v: Dual3<T, F>| behave(ctx, || scaled(eval_generic(&fx.polys[0], &[v.clone()], fx.style), fx.scale), reenter_with!(ctx, inner, |i, c| third_derivative_case::<T, F>(i, None, fallible, c)));
+    let body = |v: Dual3<T, F>| behave(ctx, || evaluate(fx, 0, &[v.clone()]), reenter_with!(ctx, inner, |i, c| third_derivative_case::<T, F>(i, None, fallible, c)));
     let r = if fallible { try_third_derivative(body, x)? } else { third_derivative(|v| infallible(body(v)), x) };
     Ok(vec![r.0.part(), r.1.part(), r.2.part(), r.3.part()])
 }
 pub fn second_partial_derivative_case<T: Subj<F>, F: DualNumFloat>(fx: &Fx, inner: Option<&Fx>, fallible: bool, ctx: &Ctx) -> Result<Vec<Part>, Token> {
     let (x, y) = (T::make(fx.a[0], fx.b[0]), T::make(fx.a[1], fx.b[1]));
     let body = |u: HyperDual<T, F>, v: HyperDual<T, F>| {
-        behave(ctx, || scaled(eval_generic(&fx.polys[0], &[u.clone(), v.clone()], fx.style), fx.scale), reenter_with!(ctx, inner, |i, c| second_partial_derivative_case::<T, F>(i, None, fallible, c)))
+        behave(ctx, || evaluate(fx, 0, &[u.clone(), v.clone()]), reenter_with!(ctx, inner, |i, c| second_partial_derivative_case::<T, F>(i, None, fallible, c)))
     };
     let r = if fallible { try_second_partial_derivative(body, x, y)? } else { second_partial_derivative(|u, v| infallible(body(u, v)), x, y) };
     Ok(vec![r.0.part(), r.1.part(), r.2.part(), r.3.part()])
@@ -219,7 +230,7 @@ pub fn second_partial_derivative_case<T: Subj<F>, F: DualNumFloat>(fx: &Fx, inne
 pub fn third_partial_derivative_case<T: Subj<F>, F: DualNumFloat>(fx: &Fx, inner: Option<&Fx>, fallible: bool, ctx: &Ctx) -> Result<Vec<Part>, Token> {
     let (x, y, z) = (T::make(fx.a[0], fx.b[0]), T::make(fx.a[1], fx.b[1]), T::make(fx.a[2], fx.b[2]));
     let body = |u: HyperHyperDual<T, F>, v: HyperHyperDual<T, F>, w: HyperHyperDual<T, F>| {
-        behave(ctx, || scaled(eval_generic(&fx.polys[0], &[u.clone(), v.clone(), w.clone()], fx.style), fx.scale), reenter_with!(ctx, inner, |i, c| third_partial_derivative_case::<T, F>(i, None, fallible, c)))
+        behave(ctx, || evaluate(fx, 0, &[u.clone(), v.clone(), w.clone()]), reenter_with!(ctx, inner, |i, c| third_partial_derivative_case::<T, F>(i, None, fallible, c)))
     };
     let r = if fallible { try_third_partial_derivative(body, x, y, z)? } else { third_partial_derivative(|u, v, w| infallible(body(u, v, w)), x, y, z) };
     Ok(vec![r.0.part(), r.1.part(), r.2.part(), r.3.part(), r.4.part(), r.5.part(), r.6.part(), r.7.part()])
@@ -227,7 +238,7 @@ pub fn third_partial_derivative_case<T: Subj<F>, F: DualNumFloat>(fx: &Fx, inner
 pub fn third_partial_derivative_vec_case<T: Subj<F>, F: DualNumFloat>(fx: &Fx, inner: Option<&Fx>, fallible: bool, ctx: &Ctx) -> Result<Vec<Part>, Token> {
     let x: Vec<T> = fx.a.iter().zip(&fx.b).map(|(a, b)| T::make(*a, *b)).collect();
     let [i, j, k] = fx.ijk;
-    let body = |v: &[HyperHyperDual<T, F>]| behave(ctx, || scaled(eval_generic(&fx.polys[0], v, fx.style), fx.scale), reenter_with!(ctx, inner, |i2, c| third_partial_derivative_vec_case::<T, F>(i2, None, fallible, c)));
+    let body = |v: &[HyperHyperDual<T, F>]| behave(ctx, || evaluate(fx, 0, v), reenter_with!(ctx, inner, |i2, c| third_partial_derivative_vec_case::<T, F>(i2, None, fallible, c)));
     let r = if fallible { try_third_partial_derivative_vec(body, &x, i, j, k)? } else { third_partial_derivative_vec(|v| infallible(body(v)), &x, i, j, k) };
     Ok(vec![r.0.part(), r.1.part(), r.2.part(), r.3.part(), r.4.part(), r.5.part(), r.6.part(), r.7.part()])
 }
@@ -240,7 +251,7 @@ where
 {
     let x = mkvec::<T, F, D>(&fx.a, &fx.b);
     let body = |v: OVector<DualVec<T, F, D>, D>| {
-        behave(ctx, || scaled(eval_generic(&fx.polys[0], &v.iter().cloned().collect::<Vec<_>>(), fx.style), fx.scale), reenter_with!(ctx, inner, |i, c| gradient_case::<T, F, D>(i, None, fallible, c)))
+        behave(ctx, || evaluate(fx, 0, &v.iter().cloned().collect::<Vec<_>>()), reenter_with!(ctx, inner, |i, c| gradient_case::<T, F, D>(i, None, fallible, c)))
     };
     let r = if fallible { try_gradient(body, x)? } else { gradient(|v| infallible(body(v)), x) };
     let mut out = vec![r.0.part()];
@@ -253,7 +264,7 @@ where
 {
     let x = mkvec::<T, F, D>(&fx.a, &fx.b);
     let body = |v: OVector<Dual2Vec<T, F, D>, D>| {
-        behave(ctx, || scaled(eval_generic(&fx.polys[0], &v.iter().cloned().collect::<Vec<_>>(), fx.style), fx.scale), reenter_with!(ctx, inner, |i, c| hessian_case::<T, F, D>(i, None, fallible, c)))
+        behave(ctx, || evaluate(fx, 0, &v.iter().cloned().collect::<Vec<_>>()), reenter_with!(ctx, inner, |i, c| hessian_case::<T, F, D>(i, None, fallible, c)))
     };
     let r = if fallible { try_hessian(body, x)? } else { hessian(|v| infallible(body(v)), x) };
     let mut out = vec![r.0.part()];
@@ -273,7 +284,7 @@ where
             ctx,
             || {
                 let xs: Vec<_> = v.iter().cloned().collect();
-                OVector::<DualVec<T, F, N>, M>::from_fn_generic(M::from_usize(m), Const::<1>, |i, _| scaled(eval_generic(&fx.polys[i], &xs, fx.style), fx.scale))
+                OVector::<DualVec<T, F, N>, M>::from_fn_generic(M::from_usize(m), Const::<1>, |i, _| evaluate(fx, i, &xs))
             },
             reenter_with!(ctx, inner, |i, c| jacobian_case::<T, F, M, N>(i, None, fallible, c)),
         )
@@ -295,7 +306,7 @@ where
     let body = |u: OVector<HyperDualVec<T, F, M, N>, M>, v: OVector<HyperDualVec<T, F, M, N>, N>| {
         behave(
             ctx,
-            || scaled(eval_generic(&fx.polys[0], &u.iter().chain(v.iter()).cloned().collect::<Vec<_>>(), fx.style), fx.scale),
+            || evaluate(fx, 0, &u.iter().chain(v.iter()).cloned().collect::<Vec<_>>()),
             reenter_with!(ctx, inner, |i, c| partial_hessian_case::<T, F, M, N>(i, None, fallible, c)),
         )
     };
